@@ -31,6 +31,12 @@ def render(hist):
             lines.append("%s=%s" % (op["n"], q(op["v"])))
         elif k == "prefix":
             lines.append("%s=%s vpa PFX%d" % (op["n"], q(op["v"]), i))
+        elif k == "assign2":
+            lines.append("%s=%s %s=%s" % (op["n1"], q(op["v1"]), op["n2"], q(op["v2"])))
+        elif k == "prefix2":
+            lines.append("%s=%s %s=%s vpa PFX%d" % (op["n1"], q(op["v1"]), op["n2"], q(op["v2"]), i))
+        elif k == "export2":
+            lines.append("export %s=%s %s=%s" % (op["n1"], q(op["v1"]), op["n2"], q(op["v2"])))
         elif k == "export":
             lines.append("export %s=%s" % (op["n"], q(op["v"])))
         elif k == "unset":
@@ -86,6 +92,13 @@ def judge(rep, hist, text, res):
             p = pfx.get("PFX%d" % i)
             if p is None or p.get("env", {}).get(op["n"]) != op["v"]:
                 return bad("prefix-env", "the prefixed command saw %s=%r, expected %r" % (op["n"], p and p.get("env", {}).get(op["n"]), op["v"]))
+        if op["op"] == "prefix2":
+            p = pfx.get("PFX%d" % i)
+            want = {op["n1"]: op["v1"]}
+            want[op["n2"]] = op["v2"]
+            got = {n: (p or {}).get("env", {}).get(n) for n in want}
+            if p is None or got != want:
+                return bad("prefix-env", "the command prefixed with two assignments saw %s, expected %s" % (got, want))
         if op["op"] == "cd":
             s = sts.get("ST%d" % i)
             if s is None or (s["argv"][0] == "0") != (o["status"] == 0):
@@ -104,7 +117,7 @@ def runner(rep, tier, seed, replay):
     r = run_tlc("MCEnvDir0", "MCEnvDir0", timeout=3000)
     if r.violation:
         raise ToolError("the coded lookup orders disagree with the reference scoping:\n" + r.violation[:2500])
-    check_action_coverage(r, ["Assign", "Prefix", "Export", "UnsetVar", "ReadN", "Cd"])
+    check_action_coverage(r, ["Assign", "Prefix", "Export", "UnsetVar", "ReadN", "Cd", "Assign2", "Prefix2", "Export2"])
     rep.add_tlc(r)
     hists = []
     n = 250 if tier == "quick" else 6000
